@@ -182,6 +182,7 @@ package keeper
 //@ modifies staking.*, bank.bal
 //@ ensures [fully_covered_by_the_delegation] err == nil && ret(GetDelegation, 1) == nil && old(held(valAddr, ret(GetDelegation, 0))) >= delTokens0 ==> rest == 0
 //@ ensures [rest_is_what_the_delegation_could_not_cover] err == nil && ret(GetDelegation, 1) == nil && old(held(valAddr, ret(GetDelegation, 0))) < delTokens0 ==> rest == delTokens0 - old(held(valAddr, ret(GetDelegation, 0)))
+//@ ensures [rest_is_non_negative] err == nil ==> rest >= 0
 //@ ensures [escrow_receives_exactly_what_was_unbonded] err == nil && called(Unbond) ==> bank.bal[module("dispute")] == old(bank.bal[module("dispute")]) + ret(Unbond, 0)
 //@ ensures [nothing_moves_without_unbonding] err == nil && !called(Unbond) ==> bank.bal == old(bank.bal)
 //@ ensures [only_pools_and_escrow_touched] forall a addr :: a != module("dispute") && a != module("bonded_tokens_pool") && a != module("not_bonded_tokens_pool") ==> bank.bal[a] == old(bank.bal[a])
@@ -196,3 +197,30 @@ package keeper
 //@ ensures [minimum_to_join_is_at_least_the_global_minimum] err == nil ==> msg.MinTokensRequired >= reporter.Params.MinTrb
 //@ ensures [an_existing_selector_or_reporter_is_rejected] old(has(reporter.Selectors, accbytes(msg.ReporterAddress))) ==> err != nil && nothing_written()
 //@ ensures [only_the_signers_records_are_written] forall a bytes :: a != accbytes(msg.ReporterAddress) ==> (has(reporter.Reporters, a) <==> old(has(reporter.Reporters, a))) && reporter.Reporters[a] == old(reporter.Reporters[a]) && (has(reporter.Selectors, a) <==> old(has(reporter.Selectors, a))) && reporter.Selectors[a] == old(reporter.Selectors[a])
+
+// ---- chasing a backer's share (C11, C05) ----
+//@ func (k Keeper).undelegate(ctx, delAddr, valAddr, delTokens) (rest, err)
+//@ requires [amount_non_negative] delTokens >= 0
+//@ requires [validators_have_delegator_shares] forall v bytes :: has(staking.validators, v) ==> staking.validators[v].DelegatorShares > 0
+//@ modifies staking.*, bank.bal
+//@ ensures [only_what_the_delegation_could_not_cover_is_taken_from_unbonding_entries] called(deductUnbondingDelegation) ==> arg(deductUnbondingDelegation, tokens) == dectrunc(ret(deductFromdelegation, 0)) && ret(deductFromdelegation, 0) != 0
+//@ ensures [covered_by_the_delegation_means_nothing_is_left] err == nil && ret(deductFromdelegation, 1) == nil && ret(deductFromdelegation, 0) == 0 ==> rest == 0 && !called(deductUnbondingDelegation)
+//@ ensures [only_pools_and_escrow_touched] forall a addr :: a != module("dispute") && a != module("bonded_tokens_pool") && a != module("not_bonded_tokens_pool") ==> bank.bal[a] == old(bank.bal[a])
+
+// ---- switching reporters (C10) ----
+// GetReporterTokensAtBlock reads the reporter's latest stake record (reverse index, not modelled): trusted read.
+//@ func (k Keeper).GetReporterTokensAtBlock(ctx, reporter, blockNumber) (tokens, err)
+//@ trusted
+
+//@ define sel(a) = reporter.Selectors[accbytes(a)]
+
+//@ func (k msgServer).SwitchReporter(goCtx, msg) (resp, err)
+//@ requires [msg_present] msg != nil
+//@ requires [addresses_checked_by_ValidateBasic] bech32ok(msg.SelectorAddress) && bech32ok(msg.ReporterAddress)
+//@ requires [positive_minimum] forall r bytes :: has(reporter.Reporters, r) ==> reporter.Reporters[r].MinTokensRequired > 0
+//@ modifies reporter.Selectors
+//@ ensures [selector_moves_to_the_chosen_reporter] err == nil ==> has(reporter.Selectors, accbytes(msg.SelectorAddress)) && bytes(sel(msg.SelectorAddress).Reporter) == accbytes(msg.ReporterAddress) && sel(msg.SelectorAddress).DelegationsCount == old(sel(msg.SelectorAddress).DelegationsCount) && has(reporter.Reporters, accbytes(msg.ReporterAddress))
+//@ ensures [an_existing_lock_survives_a_switch_away_from_a_reporter_that_never_reported] err == nil && ret(GetReporterTokensAtBlock, 0) == 0 ==> sel(msg.SelectorAddress).LockedUntilTime == old(sel(msg.SelectorAddress).LockedUntilTime)
+//@ ensures [switching_away_from_a_reporter_that_reported_locks_for_the_unbonding_period] err == nil && ret(GetReporterTokensAtBlock, 0) != 0 ==> sel(msg.SelectorAddress).LockedUntilTime == blocktime(goCtx) + ret(UnbondingTime, 0)
+//@ ensures [a_reporter_cannot_switch_away_from_itself] old(has(reporter.Selectors, accbytes(msg.SelectorAddress))) && old(bytes(sel(msg.SelectorAddress).Reporter)) == accbytes(msg.SelectorAddress) ==> err != nil && nothing_written()
+//@ ensures [only_the_signers_selection_is_written] forall a bytes :: a != accbytes(msg.SelectorAddress) ==> (has(reporter.Selectors, a) <==> old(has(reporter.Selectors, a))) && reporter.Selectors[a] == old(reporter.Selectors[a])
